@@ -73,11 +73,18 @@ package zapcore
 
 //@ spec func pass(n uint64, first uint64, th uint64) bool = n <= first || (th != 0 && (n - first) % th == 0)
 
+// The "fixed hash" of the property: 32-bit FNV-1a over the BYTES of the message (offset basis 2166136261,
+// prime 16777619), as a fold.
+//@ spec func fnvFold(s Bytes, k int) uint32
+//@ axiom fnv_base: forall s Bytes :: fnvFold(s, 0) == 2166136261
+//@ axiom fnv_step: forall s Bytes, k int :: 0 <= k && k < len(s) ==> fnvFold(s, k + 1) == (fnvFold(s, k) ^ uint32(at(s, k))) * 16777619
+
 //@ func zapcore.fnv32a
 //@   props C11
 //@   arith bv
 //@   flags nopanic pure
-//@   loop 1 invariant 0 <= i && i <= len(s)
+//@   ensures result == fnvFold(s, len(s))
+//@   loop 1 invariant 0 <= i && i <= len(s) && hash == fnvFold(s, i)
 
 //@ func (*zapcore.counters).get
 //@   props C11
